@@ -236,7 +236,10 @@ def exec_case(case, cfg):
                     if eager and fws[k]["mod"] not in sys.modules:
                         deferred.setdefault(fws[k]["mod"], []).append((b["name"], factory))  # registered when the module appears
                     else:
-                        reg.register_on_import(fws[k]["mod"], b["name"], factory)
+                        try:
+                            reg.register_on_import(fws[k]["mod"], b["name"], factory)
+                        except Exception as e:  # a failing factory must become an InvalidBackend, never surface here
+                            bad.append(("factory-failure-leaks", f"register_on_import of {b['name']} (module already imported, factory raises {b['err']}) raised {type(e).__name__}", None))
                     model.entries.append(dict(name=b["name"], prio=b["prio"], cls=cls, healthy=b["healthy"], module=fws[k]["mod"]))
                 else:
                     if b["healthy"]:
@@ -254,7 +257,10 @@ def exec_case(case, cfg):
 
     def materialise(reg, mod):
         for name, factory in deferred.pop(mod, []):
-            reg.register_on_import(mod, name, factory)  # module is in sys.modules: the factory runs now
+            try:
+                reg.register_on_import(mod, name, factory)  # module is in sys.modules: the factory runs now
+            except Exception as e:
+                bad.append(("factory-failure-leaks", f"register_on_import of {name} (module already imported) raised {type(e).__name__}", None))
 
     def mk_tensors(spec):
         out = []
@@ -304,6 +310,8 @@ def exec_case(case, cfg):
             sys.modules.pop(m, None)
         reg, model = build(setup, counting=True)
         regs = {"main": reg, "permuted-order twin": twin, "eager-materialisation twin": eager}
+        if any(b[2] is None for b in bad):
+            return _finish(case, stats, faults, probes, sigs, log, bad)
         late_seen = {"main": False, "permuted-order twin": False}
         held = {}
         ctx = []
